@@ -226,35 +226,66 @@ func (node *qtNode) minDist2(p v2.Vec, dd float64) float64 {
 	return dd
 }
 
-// winding returns the winding number for the quadtree node
-func (node *qtNode) winding(p v2.Vec, wn int) int {
-	if node == nil {
-		return wn
+//-----------------------------------------------------------------------------
+
+// The winding number is taken from the original (unclipped) line segments.
+// The pieces stored in the quadtree do not tile a segment exactly (clipped
+// end points are rounded and snapped to the box edges) so counting their ray
+// crossings can lose or duplicate a crossing and give the wrong sign.
+// The segments are indexed by horizontal strips to keep the evaluation fast.
+
+const wnMaxStrips = 64
+
+type windingIndex struct {
+	ymin, ymax float64       // y-range of the line segments
+	k          float64       // strips per unit y
+	strip      [][]*lineInfo // line segments overlapping each strip
+}
+
+func newWindingIndex(mesh []*Line2, bb Box2) *windingIndex {
+	n := len(mesh)
+	if n > wnMaxStrips {
+		n = wnMaxStrips
 	}
-	// leaf node
-	if node.leaf != nil {
-		for _, li := range node.leaf {
-			wn += li.winding(p)
-		}
-		return wn
+	w := &windingIndex{
+		ymin:  bb.Min.Y,
+		ymax:  bb.Max.Y,
+		strip: make([][]*lineInfo, n),
 	}
-	// child nodes: explore in +ve x-axis order
-	// translate the point so the node box center is at the origin
-	q := p.Sub(node.center)
-	if q.X < 0 {
-		if q.Y < 0 {
-			wn = node.child[0].winding(p, wn)
-			wn = node.child[1].winding(p, wn)
-		} else {
-			wn = node.child[2].winding(p, wn)
-			wn = node.child[3].winding(p, wn)
+	if h := w.ymax - w.ymin; h > 0 {
+		w.k = float64(n) / h
+	}
+	for _, li := range convertLines(mesh) {
+		i0 := w.index(math.Min(li.line[0].Y, li.line[1].Y))
+		i1 := w.index(math.Max(li.line[0].Y, li.line[1].Y))
+		for i := i0; i <= i1; i++ {
+			w.strip[i] = append(w.strip[i], li)
 		}
-	} else {
-		if q.Y < 0 {
-			wn = node.child[1].winding(p, wn)
-		} else {
-			wn = node.child[3].winding(p, wn)
-		}
+	}
+	return w
+}
+
+// index returns the strip index for a y value (ymin <= y <= ymax).
+// It is monotonic in y, so a segment is in the strip of every y it spans.
+func (w *windingIndex) index(y float64) int {
+	i := int((y - w.ymin) * w.k)
+	if i >= len(w.strip) {
+		i = len(w.strip) - 1
+	}
+	if i < 0 {
+		i = 0
+	}
+	return i
+}
+
+// winding returns the winding number for a point.
+func (w *windingIndex) winding(p v2.Vec) int {
+	if !(p.Y >= w.ymin && p.Y <= w.ymax) {
+		return 0
+	}
+	wn := 0
+	for _, li := range w.strip[w.index(p.Y)] {
+		wn += li.winding(p)
 	}
 	return wn
 }
@@ -264,8 +295,9 @@ func (node *qtNode) winding(p v2.Vec, wn int) int {
 
 // MeshSDF2 is SDF2 made from a set of line segments.
 type MeshSDF2 struct {
-	qt *qtNode // quadtree root
-	bb Box2    // bounding box
+	qt *qtNode       // quadtree root (distance)
+	wi *windingIndex // winding number index (inside/outside)
+	bb Box2          // bounding box
 }
 
 // Mesh2D returns an SDF2 made from a set of line segments.
@@ -291,6 +323,7 @@ func Mesh2D(mesh []*Line2) (SDF2, error) {
 
 	return &MeshSDF2{
 		qt: qt,
+		wi: newWindingIndex(mesh, bb),
 		bb: bb,
 	}, nil
 }
@@ -298,7 +331,7 @@ func Mesh2D(mesh []*Line2) (SDF2, error) {
 // Evaluate returns the minimum distance for a 2d mesh.
 func (s *MeshSDF2) Evaluate(p v2.Vec) float64 {
 	d2 := s.qt.minDist2(p, math.MaxFloat64)
-	wn := s.qt.winding(p, 0)
+	wn := s.wi.winding(p)
 	// normalise d*d to d
 	d := math.Sqrt(d2)
 	if wn != 0 {
